@@ -91,14 +91,14 @@ func init() {
 		Scens:  []scenSpec{{Name: "bswrite", Weight: 1}},
 		QuickS: 40, ThorS: 600, Rule: ruleCommon})
 	props = append(props, &propSpec{ID: "C06", Level: "exploration", Clauses: []string{"C06."},
-		Scens:  []scenSpec{{Name: "ac", Weight: 1}},
+		Scens:  []scenSpec{{Name: "ac", Weight: 2}, {Name: "backend", Weight: 1}},
 		QuickS: 40, ThorS: 600, Rule: ruleCommon})
 	props = append(props, &propSpec{ID: "C11", Level: "exploration", Clauses: []string{"C11."},
 		Scens:  []scenSpec{{Name: "ac", Weight: 1}},
 		QuickS: 40, ThorS: 600, Rule: ruleCommon})
 	props = append(props, &propSpec{ID: "C12", Level: "fault_enumeration", Clauses: []string{"C12.", "C14.panic"},
-		Scens:  []scenSpec{{Name: "backend", Weight: 1}},
-		QuickS: 45, ThorS: 900, Rule: ruleCommon})
+		Scens:  []scenSpec{{Name: "backend", Weight: 2}, {Name: "backend2", Weight: 1, Batch: 15}},
+		QuickS: 50, ThorS: 900, Rule: ruleCommon})
 	props = append(props, &propSpec{ID: "C09", Level: "exploration", Clauses: []string{"C09.", "C03.", "C04."},
 		Scens:  []scenSpec{{Name: "restartdir", Weight: 1, Batch: 20}},
 		QuickS: 40, ThorS: 600,
